@@ -3,6 +3,7 @@ import FluteModel.Lemmas.RecvTotal
 import FluteModel.Lemmas.RecvToy
 import FluteModel.Lemmas.RecvGrowth
 import FluteModel.Lemmas.RecvMiniLaw
+import FluteModel.Lemmas.RecvFullLaw
 /-
   C04 - untrusted input, SESSION-LEVEL receiver (`Receiver::push_data` / `push` / `cleanup`):
   no parsed packet, no XML-parser answer, no history can make a receiver call panic; a datagram the
@@ -147,6 +148,14 @@ theorem registries_grow_by_one (I : ObjIface σ) (s s' : State σ) (op : Op) (r 
 theorem recv_history_total_driver_model (cfg : Config) (ops : List Op) (hops : ∀ op ∈ ops, OpOK op) :
     ∃ s' out, run Mini.iface (State.init cfg) ops = some (s', out) :=
   recv_history_total Mini.iface Mini.completeSound cfg ops hops
+
+/-- `recv_history_total` for the receiver instantiated with the FULL object model `ObjRecv`
+    (adapter `RecvFull.lean`; `CompleteSound` from agent orecv's `push_complete_state`).  A fault of
+    `ObjRecv` itself (its `panic`/`hang` outcomes, object level: `Flute.Props.C04.Obj`) freezes that
+    object in the adapter; what is proved here is that the SESSION level never panics around it. -/
+theorem recv_history_total_full_object_model (cfg : Config) (ops : List Op) (hops : ∀ op ∈ ops, OpOK op) :
+    ∃ s' out, run Full.iface (State.init cfg) ops = some (s', out) :=
+  recv_history_total Full.iface Full.completeSound cfg ops hops
 
 /-! ### non-vacuity, and why the clock hypothesis is there -/
 
